@@ -10,7 +10,7 @@ import (
 	"verif/harness/internal/hx"
 )
 
-func init() { drivers["masks"] = driveMasks }
+func main() { hx.Main(map[string]func(*hx.Ctx) error{"masks": driveMasks}) }
 
 type maskCase struct {
 	Mask   int32  `json:"mask"`
